@@ -393,6 +393,39 @@ def correspondence(run):
         run.fail("violation", "%s: %s" % (fns, what), d)
     if len(bad) > len(seen):
         run.note("%d disagreeing cases in total" % len(bad))
+    limit_block(run)
+
+
+def limit_block(run):
+    """yaql.limitIterators = n over the instrumented endless source: the limiter is lazy (one pull per element, the
+    (n+1)-th pulled and refused) - values, pulls and lambda applications against Model/Streams.v eval_case_lim"""
+    cases, meta = [], []
+    for _ in range(run.n(300, 4000)):
+        n = run.rng.randrange(2, 7)
+        k0 = run.rng.randrange(-3, 4)
+        stages = sc.gen_lim_stages(run.rng, n, terminal=False)
+        k = run.rng.randrange(0, n + 2)
+        src = Source(k0)
+        sc.TICKS.clear()
+        text = "%s.take(%d)" % (sc.pipeline_text("$", stages, probe=True), k)
+        o = sc.evaluate(text, src, timeout=30, eng=sc.engine_with_limit(n))
+        ticks = sum(sc.TICKS.values())
+        cap = o[0] == "err" and ("PullCap" in o[2] or "watchdog" in o[2])
+        run.case(("limit", n, k0, sc.stages_json(stages), k), nontrivial=k > 0)
+        run.count("limit:n=%d" % n)
+        run.count("limit-result:" + ("cap" if cap else o[1] if o[0] == "err" else o[0]))
+        ob = "OCap" if cap else sc.obs_gal(o if o[0] != "err" else ("err", o[1]))
+        cases.append("{| lk_lim := %s; lk_start := %s; lk_stages := %s; lk_take := %s; lk_vals := %s; lk_pulls := %s; lk_ticks := %s |}" % (
+            gal.nat(n), gal.z(k0), gal.lst(sc.stage_gal(x) for x in stages), gal.nat(k), ob, gal.nat(min(src.pulls, 4000)), gal.nat(min(ticks, 4000))))
+        meta.append((n, k0, stages, k, text, o, src.pulls, ticks))
+    bad = run.coq_mismatches(sc.HEADER, "lkcase", "lkcase_ok", cases, shard=400)
+    for i in bad[:3]:
+        n, k0, stages, k, text, o, pulls, ticks = meta[i]
+        run.fail("violation", "yaql.limitIterators=%d: %s: values / pulls / lambda applications differ from the reference model" % (
+            n, "/".join(x[0] for x in stages)),
+                 {"kind": "limit", "limit": n, "yaql": text, "k0": k0, "stages": sc.stages_json(stages), "k": k, "observed": repr(o),
+                  "pulls": pulls, "ticks": ticks, "theorems": ["C14_limit"],
+                  "requires": "the limiter passes elements through one for one and refuses the (n+1)-th"})
 
 
 def shrink(run, k0, stages, k, mode="data-iter"):
@@ -505,6 +538,17 @@ def search_need(k0, stages):
 
 def replay(run, data):
     d = data["data"]
+    if d.get("kind") == "limit":
+        n, k0, stages, k = d["limit"], d["k0"], sc.stages_from_json(d["stages"]), d["k"]
+        sc.context()
+        src = Source(k0)
+        sc.TICKS.clear()
+        o = sc.evaluate("%s.take(%d)" % (sc.pipeline_text("$", stages, probe=True), k), src, timeout=30, eng=sc.engine_with_limit(n))
+        ticks = sum(sc.TICKS.values())
+        ob = sc.obs_gal(o if o[0] != "err" else ("err", o[1]))
+        term = "{| lk_lim := %s; lk_start := %s; lk_stages := %s; lk_take := %s; lk_vals := %s; lk_pulls := %s; lk_ticks := %s |}" % (
+            gal.nat(n), gal.z(k0), gal.lst(sc.stage_gal(x) for x in stages), gal.nat(k), ob, gal.nat(min(src.pulls, 4000)), gal.nat(min(ticks, 4000)))
+        return not run.coq_mismatches(sc.HEADER, "lkcase", "lkcase_ok", [term])
     k0, stages, k, mode = d["k0"], sc.stages_from_json(d["stages"]), d["k"], d.get("mode", "data-iter")
     sc.context()
     o, pulls, ticks, per, text = observe(k0, stages, k, mode)
